@@ -219,7 +219,8 @@ def classify(logs):
             else:
                 last = writes[-1]
                 verdicts.append('read-after-last' if any(i > last for i in reads) else 'not-read-after-last')
-        if all(x in ('not-read-after-last', 'untouched') for x in verdicts) and any(x == 'not-read-after-last' for x in verdicts):
+        # (a path that only READS the name has no assignment after which it could be read: it says nothing against 'unused')
+        if all(x in ('not-read-after-last', 'untouched', 'read-only') for x in verdicts) and any(x == 'not-read-after-last' for x in verdicts):
             unused[v] = 'must'
         elif all(x == 'read-after-last' for x in verdicts):
             unused[v] = 'must-not'
@@ -228,11 +229,17 @@ def classify(logs):
     return out, unused
 
 
+_CTX = [None]
+
+
 def tifa_issues(code):
     from pedal.core.commands import clear_report, contextualize_report
     from pedal.tifa import tifa_analysis
     clear_report()
     contextualize_report(code)
+    # (the messages of the issues are rendered through the report's formatter while the analysis runs: web environments use HTML)
+    from props.c18 import use_formatter
+    use_formatter(_CTX[0], code) if _CTX[0] is not None else None
     t = tifa_analysis()
     out = {}
     for label, fbs in (t.issues or {}).items():
@@ -530,6 +537,7 @@ def binding_form_programs():
 
 def run(ctx):
     rng = ctx.rng
+    _CTX[0] = ctx
     forms = binding_form_programs()
     mine = forms[ctx.shard::ctx.nshards]
     if ctx.quick():
